@@ -62,6 +62,10 @@ theorem C20_lockset_orders (G : String → String) (pre mid post : List Race.Ev)
     ∃ i j : Nat, i < j ∧ (∃ a, mid[i]? = some a ∧ Race.isRel a t1 (G f)) ∧ (∃ b, mid[j]? = some b ∧ Race.isAcq b t2 (G f)) :=
   Race.lockset_orders G pre mid post e1 e2 t1 t2 f hrun hd h1 h2 hne hw
 
+-- AUDIT: the conclusion is `False`, i.e. the hypotheses are jointly unsatisfiable *by design* (this is
+-- the statement: no running, disciplined trace has adjacent conflicting accesses); a non-vacuity instance
+-- cannot exist.  `Ex` below shows instead that each of "disciplined", "t1 ≠ t2", "one is a write" is
+-- needed: dropping any one of them leaves a satisfiable set on a trace that runs.
 /-- conflicting accesses are never adjacent -/
 theorem C20_no_adjacent_race (G : String → String) (pre post : List Race.Ev) (e1 e2 : Race.Ev)
     (t1 t2 : Race.Tid) (f : String)
@@ -70,5 +74,68 @@ theorem C20_no_adjacent_race (G : String → String) (pre post : List Race.Ev) (
     (h1 : Race.isAccess e1 t1 f) (h2 : Race.isAccess e2 t2 f) (hne : t1 ≠ t2)
     (hw : e1 = .wr t1 f ∨ e2 = .wr t2 f) : False :=
   Race.no_adjacent_race G pre post e1 e2 t1 t2 f hrun hd h1 h2 hne hw
+
+/-! ## non-vacuity -/
+
+namespace Ex
+
+/-- two guards, three threads: the configuration is guarded by `ConfigMu`, everything else by
+`sessionsMu` -/
+def G (f : String) : String := if f = "cfg" then "ConfigMu" else "sessionsMu"
+
+def pre : List Race.Ev := [.acqR 3 "ConfigMu", .rd 3 "cfg", .acqW 1 "sessionsMu"]
+def mid : List Race.Ev :=
+  [.relW 1 "sessionsMu", .relR 3 "ConfigMu", .acqR 2 "sessionsMu", .acqR 3 "sessionsMu"]
+def post : List Race.Ev := [.rd 3 "sessions", .relR 2 "sessionsMu", .relR 3 "sessionsMu"]
+
+/-- thread 3 reads the configuration under `ConfigMu.RLock` while thread 1 writes `sessions` under
+`sessionsMu.Lock`; afterwards threads 2 and 3 read `sessions` under `sessionsMu.RLock` -/
+def trace : List Race.Ev := pre ++ .wr 1 "sessions" :: mid ++ .rd 2 "sessions" :: post
+
+theorem trace_runs : Race.run Race.LS.init trace ≠ none := by
+  simp [trace, pre, mid, post, Race.run, Race.step, Race.LS.init]
+
+theorem trace_disciplined : Race.Disciplined G Race.LS.init trace := by
+  simp [trace, pre, mid, post, G, Race.Disciplined, Race.step, Race.holdsW, Race.holds, Race.LS.init]
+
+/-- all hypotheses of `C20_lockset_orders` hold together on a trace with two locks, three threads, a
+write and a later conflicting read -/
+example : ∃ i j : Nat, i < j ∧ (∃ a, mid[i]? = some a ∧ Race.isRel a 1 "sessionsMu") ∧
+    (∃ b, mid[j]? = some b ∧ Race.isAcq b 2 "sessionsMu") :=
+  C20_lockset_orders G pre mid post (.wr 1 "sessions") (.rd 2 "sessions") 1 2 "sessions"
+    trace_runs trace_disciplined (Or.inr rfl) (Or.inl rfl) (by decide) (Or.inl rfl)
+
+/-- … and the witnesses are the expected release (position 0) and acquisition (position 2) -/
+example : mid[0]? = some (.relW 1 "sessionsMu") ∧ mid[2]? = some (.acqR 2 "sessionsMu") := ⟨rfl, rfl⟩
+
+/-! `C20_no_adjacent_race` concludes `False`: its hypotheses are jointly unsatisfiable *by design* (that
+is the statement), so no instance of all of them can exist.  What can be shown instead is that no
+hypothesis is redundant: dropping any one of "disciplined", "different threads", "one is a write"
+leaves a satisfiable set — on traces that run. -/
+
+/-- without the discipline: an adjacent write/read pair of two threads on a trace that runs -/
+example : Race.run Race.LS.init ([.acqW 1 "sessionsMu"] ++ .wr 1 "sessions" :: [] ++ .rd 2 "sessions" :: [.relW 1 "sessionsMu"]) ≠ none ∧
+    Race.isAccess (.wr 1 "sessions") 1 "sessions" ∧ Race.isAccess (.rd 2 "sessions") 2 "sessions" ∧ (1 : Race.Tid) ≠ 2 ∧
+    ¬ Race.Disciplined G Race.LS.init ([.acqW 1 "sessionsMu"] ++ .wr 1 "sessions" :: [] ++ .rd 2 "sessions" :: [.relW 1 "sessionsMu"]) := by
+  refine ⟨?_, Or.inr rfl, Or.inl rfl, by decide, ?_⟩
+  · simp [Race.run, Race.step, Race.LS.init]
+  · simp [G, Race.Disciplined, Race.step, Race.holdsW, Race.holds, Race.LS.init]
+
+/-- without "different threads": a disciplined trace with an adjacent write/read of one thread -/
+example : Race.run Race.LS.init ([.acqW 1 "sessionsMu"] ++ .wr 1 "sessions" :: [] ++ .rd 1 "sessions" :: [.relW 1 "sessionsMu"]) ≠ none ∧
+    Race.Disciplined G Race.LS.init ([.acqW 1 "sessionsMu"] ++ .wr 1 "sessions" :: [] ++ .rd 1 "sessions" :: [.relW 1 "sessionsMu"]) := by
+  constructor
+  · simp [Race.run, Race.step, Race.LS.init]
+  · simp [G, Race.Disciplined, Race.step, Race.holdsW, Race.holds, Race.LS.init]
+
+/-- without "one is a write": a disciplined trace with adjacent reads of two threads under `RLock` -/
+example : Race.run Race.LS.init ([.acqR 1 "sessionsMu", .acqR 2 "sessionsMu"] ++ .rd 1 "sessions" :: [] ++ .rd 2 "sessions" :: [.relR 1 "sessionsMu", .relR 2 "sessionsMu"]) ≠ none ∧
+    Race.Disciplined G Race.LS.init ([.acqR 1 "sessionsMu", .acqR 2 "sessionsMu"] ++ .rd 1 "sessions" :: [] ++ .rd 2 "sessions" :: [.relR 1 "sessionsMu", .relR 2 "sessionsMu"]) ∧
+    (1 : Race.Tid) ≠ 2 := by
+  refine ⟨?_, ?_, by decide⟩
+  · simp [Race.run, Race.step, Race.LS.init]
+  · simp [G, Race.Disciplined, Race.step, Race.holds, Race.LS.init]
+
+end Ex
 
 end Robust.Props.C20
